@@ -317,6 +317,22 @@ def run_reset(ck: Check):
             cops = "[" + "; ".join({"F": "BFit %d", "C": "BCmp %d"}.get(o[0], "BRst") % o[1:] if o[0] != "R" else "BRst" for o in ops) + "]"
             exprs.append(f"run_reset {tab} {fl(float(alpha))} {cops}")
             cases.append((cls.__name__, float(alpha), ops, cur, outs))
+    # a NaN p-value is not <= alpha: the detector must stay fitted (Welch on two constant equal samples; KS with a NaN in the batch)
+    from frouros.detectors.data_drift import KSTest, WelchTTest
+
+    for cls, ref, x in ((WelchTTest, np.full(8, 2.0), np.full(6, 2.0)), (KSTest, nprng.normal(0, 1, 10), np.array([0.1, np.nan, 0.3, 0.2]))):
+        for alpha in (0.05, 1.0, 1e-12):
+            d = cls(callbacks=[ResetStatisticalTest(alpha=alpha)])
+            d.fit(X=ref)
+            try:
+                res_, _ = d.compare(X=x)
+            except Exception:  # noqa: BLE001
+                continue
+            pnan = float(res_.p_value)
+            ck.case(dict(detector=cls.__name__, alpha=alpha, kind="nan-p-value", p=pnan), nontrivial=True, key=repr((cls.__name__, alpha, "nan")))
+            if math.isnan(pnan) and d.X_ref is None:
+                ck.violation(dict(clause="reset-iff", detector=cls.__name__, p="nan"), dict(what="the detector was reset although the returned p-value is NaN (not <= alpha)", detector=cls.__name__, alpha=alpha, reference=ref.tolist(), sample=[None if math.isnan(v) else float(v) for v in x]))
+            ck.count("nan_p_cases", int(math.isnan(pnan)))
     res = coq_eval("C17r", HDR17, exprs, shard=60)
     for (name, alpha, ops, cur, outs), r in zip(cases, res):
         ck.corr_cases += 1
